@@ -1,2 +1,4 @@
 import Setproto.Set
 import Setproto.Set32
+import Setproto.SetF
+import Setproto.Set32F
